@@ -8,6 +8,7 @@ import (
 
 	"github.com/foxglove/mcap/go/mcap"
 	"pgregory.net/rapid"
+	"verifharness/faultio"
 	"verifharness/pk"
 	"verifharness/specdec"
 	"verifharness/stats"
@@ -86,6 +87,32 @@ func checkC08(c WKCase, st *stats.Collector) error {
 			return pk.Failf("info", "Info: %v", err)
 		}
 		infoChecked = true
+		// Info over a source with a transient read error somewhere in the summary or footer: whenever Info
+		// answers without an error - at once, or when asked again - it is the Info of this file
+		truth := infoSnapshot(info)
+		if d.DataEndIdx >= 0 {
+			from := int(d.Records[d.DataEndIdx].Offset)
+			stride := 1 + (len(file)-from)/9
+			for p := from; p < len(file); p += stride {
+				src := &faultio.SeekSource{Source: faultio.Source{Data: file, FailAt: p, OneShot: true}}
+				frd, err := mcap.NewReader(src)
+				if err != nil {
+					continue
+				}
+				for attempt := 1; attempt <= 3; attempt++ {
+					fi, err := frd.Info()
+					if err != nil {
+						continue // a reported failure is fine; ask again
+					}
+					if got := infoSnapshot(fi); got != truth {
+						frd.Close()
+						return pk.Failf("info-after-read-error", "Info over a source that fails once at byte %d of %d returned no error on attempt %d, but not this file's Info:\n got:  %.500s\n want: %.500s", p, len(file), attempt, got, truth)
+					}
+					break
+				}
+				frd.Close()
+			}
+		}
 		if info.Statistics == nil {
 			return pk.Failf("info-statistics", "Info.Statistics is nil")
 		}
